@@ -229,6 +229,9 @@ def _chunk(i, n):
 
 GROUPS = {"bounded:lambda-signatures": c03.g_lambda_signatures_bounded, "wf": g_wf, "replace": g_replace, "witness": g_witness, "convert_code_string": _dflt,
           "string_contents_per_char": c04.g_escaper_per_char, "trampoline": c03.g_trampoline, "canary": c13.g_canary}
+# a yield/await let through by the transformer ends up inside a comprehension or a lambda of the
+# converter, where it does not compile: the dispatch obligations of C06/C08 are required here too
+GROUPS["expressions:dispatch"] = c06.g_transform_dispatch
 for _i in range(8):
     GROUPS[f"newline:{_i}"] = _chunk(_i, 8)
 NO_FRAME_GROUPS = ("wf",) + tuple(f"newline:{_i}" for _i in range(8))
